@@ -17,8 +17,13 @@ pub struct Var {
 }
 #[derive(Clone, Debug, Serialize, Deserialize, Default)]
 pub struct Lin {
+    /// terms as they appear in the message: a variable may be repeated and a coefficient may be zero
     pub terms: Vec<(u64, F)>,
     pub constant: F,
+    /// message variant carrying the linear function: 0 Linear, 1 Quadratic without quadratic entries,
+    /// 2 Polynomial of degree <= 1, 3 Quadratic with an explicit zero entry
+    #[serde(default)]
+    pub carrier: u8,
 }
 impl Default for F {
     fn default() -> Self {
@@ -66,13 +71,26 @@ impl LinInst {
             inst.decision_variables.push(msg::dvar(v.id, v.kind.to_v1(), v.bound.map(|(l, u)| (l.0, u.0))));
         }
         let lin = |l: &Lin| msg::linear(&l.terms.iter().map(|(i, c)| (*i, c.0)).collect::<Vec<_>>(), l.constant.0);
-        let mut obj = msg::f_lin(lin(&self.objective));
+        // the same linear function in another legal message variant
+        let carry = |l: &Lin| -> v1::Function {
+            match l.carrier {
+                1 => msg::f_quad(msg::quadratic(&[], Some(lin(l)))),
+                2 => {
+                    let mut terms: Vec<(Vec<u64>, f64)> = l.terms.iter().map(|(i, c)| (vec![*i], c.0)).collect();
+                    terms.push((vec![], l.constant.0));
+                    msg::f_poly(msg::polynomial(&terms))
+                }
+                3 if !l.terms.is_empty() => msg::f_quad(msg::quadratic(&[(l.terms[0].0, l.terms[0].0, 0.0)], Some(lin(l)))),
+                _ => msg::f_lin(lin(l)),
+            }
+        };
+        let mut obj = carry(&self.objective);
         if let Some(Nonlin::Objective { i, j, c }) = &self.nonlinear {
             obj = msg::f_quad(msg::quadratic(&[(*i, *j, c.0)], Some(lin(&self.objective))));
         }
         inst.objective = Some(obj);
         for (k, c) in self.cons.iter().enumerate() {
-            let mut f = if c.lin.terms.is_empty() && c.as_constant { msg::f_const(c.lin.constant.0) } else { msg::f_lin(lin(&c.lin)) };
+            let mut f = if c.lin.terms.is_empty() && c.as_constant { msg::f_const(c.lin.constant.0) } else { carry(&c.lin) };
             if let Some(Nonlin::Constraint { index, i, j, c: q }) = &self.nonlinear {
                 if *index == k {
                     f = msg::f_quad(msg::quadratic(&[(*i, *j, q.0)], Some(lin(&c.lin))));
@@ -85,19 +103,23 @@ impl LinInst {
         inst
     }
 
+    /// variables the problem uses: those with a non-zero net coefficient in the objective or a constraint
     pub fn used(&self) -> std::collections::BTreeSet<u64> {
         let mut s = std::collections::BTreeSet::new();
-        for (i, c) in &self.objective.terms {
-            if c.0 != 0.0 {
-                s.insert(*i);
+        let mut net = |l: &Lin| {
+            let mut m: std::collections::BTreeMap<u64, f64> = Default::default();
+            for (i, c) in &l.terms {
+                *m.entry(*i).or_insert(0.0) += c.0;
             }
-        }
-        for c in &self.cons {
-            for (i, k) in &c.lin.terms {
-                if k.0 != 0.0 {
-                    s.insert(*i);
+            for (i, c) in m {
+                if c != 0.0 {
+                    s.insert(i);
                 }
             }
+        };
+        net(&self.objective);
+        for c in &self.cons {
+            net(&c.lin);
         }
         s
     }
@@ -186,9 +208,18 @@ pub fn gen_inst(rng: &mut Rng) -> LinInst {
         if terms.is_empty() && !allow_empty && !vars.is_empty() {
             terms.push((vars[rng.usize(vars.len())].id, F(gen_coef(rng))));
         }
+        // un-normalised but legal: a repeated variable, an explicit zero coefficient
+        if !terms.is_empty() && rng.chance(1, 8) {
+            let t = terms[rng.usize(terms.len())];
+            terms.push((t.0, F(gen_coef(rng))));
+        }
+        if !vars.is_empty() && rng.chance(1, 10) {
+            terms.push((vars[rng.usize(vars.len())].id, F(0.0)));
+        }
         rng.shuffle(&mut terms);
         let constant = if rng.chance(1, 2) { 0.0 } else { gen_coef(rng) };
-        Lin { terms, constant: F(constant) }
+        let carrier = if rng.chance(1, 4) { 1 + rng.below(3) as u8 } else { 0 };
+        Lin { terms, constant: F(constant), carrier }
     };
     let objective = gen_lin(rng, true);
     let nc = *rng.pick(&[0usize, 0, 1, 1, 2, 3, 4]);
